@@ -733,7 +733,16 @@ fn gen_tail(r: &mut Rng, events: &mut Vec<Value>, expected: &mut Option<Vec<ExpC
             if events.is_empty() {
                 return (0, None);
             }
-            move_last_done_to_end(events, expected);
+            // usually the last call's done event sits in the tail; now and then the event that announces the response
+            // id does (stateful follow-ups are chained to it: the collector must see it as well)
+            let rid = events.iter().rposition(|ev| ev.get("response").and_then(|x| x.get("id")).is_some());
+            match rid {
+                Some(pos) if r.chance(1, 4) => {
+                    let e = events.remove(pos);
+                    events.push(e);
+                }
+                _ => move_last_done_to_end(events, expected),
+            }
             (tail, None)
         }
         5 => (5, None),
@@ -1515,11 +1524,21 @@ fn loop_oracle(c: &LoopCase, o: &LoopObs, e: &LoopEnc) -> Vec<(String, String)> 
     // order, ties by frame order); a run must not end `completed` with such a call in the frames of its last answer.
     {
         let mut frame_calls: Vec<Vec<(u64, String, bool)>> = vec![];
+        // call ids carried by any function_call item (added or done) in the frames of an answer
+        let mut announced: Vec<BTreeSet<String>> = vec![];
         for f in &o.frames {
             match f["type"].as_str().unwrap_or("") {
-                "openresponses_request_started" => frame_calls.push(vec![]),
+                "openresponses_request_started" => {
+                    frame_calls.push(vec![]);
+                    announced.push(BTreeSet::new());
+                }
                 "provider_event" if f["status"] == "event" => {
                     let d = &f["data"];
+                    if d["item"]["type"] == "function_call" && (d["type"] == "response.output_item.done" || d["type"] == "response.output_item.added") {
+                        if let (Some(cid), Some(a)) = (d["item"]["call_id"].as_str(), announced.last_mut()) {
+                            a.insert(cid.to_string());
+                        }
+                    }
                     if d["type"] == "response.output_item.done" && d["item"]["type"] == "function_call" {
                         if let Some(cid) = d["item"]["call_id"].as_str().filter(|x| !x.is_empty()) {
                             if let Some(g) = frame_calls.last_mut() {
@@ -1535,13 +1554,15 @@ fn loop_oracle(c: &LoopCase, o: &LoopObs, e: &LoopEnc) -> Vec<(String, String)> 
             let clean = c.rounds.get(k).map(|rd| rd.expected.is_some()).unwrap_or(false);
             // well-formed on its own (the done item names the function); in a clean round every done frame counts
             let must: Vec<&(u64, String, bool)> = fc.iter().filter(|x| clean || x.2).collect();
-            if must.is_empty() {
-                continue;
-            }
             if k + 1 < o.bodies.len() {
                 let nxt = outputs_of(&inputs[k + 1]);
                 let skip = if c.stateless { outputs_of(&inputs[k]).len().min(nxt.len()) } else { 0 };
                 let ids: Vec<String> = nxt[skip..].iter().map(|i| i["call_id"].as_str().unwrap_or("").to_string()).collect();
+                for id in &ids {
+                    if !announced[k].contains(id) {
+                        bad.push((format!("request {} answers call id {id:?}, which no function_call item in the frames of answer {k} carries", k + 1), "answer_without_call".to_string()));
+                    }
+                }
                 for (_, cid, _) in &must {
                     if !ids.contains(cid) {
                         bad.push((format!("answer {k}: the session stream shows the provider's call {cid:?} (output_item.done frame) but request {} answers {ids:?}", k + 1), "call_in_frames_not_answered".to_string()));
@@ -1560,7 +1581,7 @@ fn loop_oracle(c: &LoopCase, o: &LoopObs, e: &LoopEnc) -> Vec<(String, String)> 
                         bad.push((format!("answer {k}: the frames show calls {want:?} (output order) but request {} answers {ids:?}", k + 1), "not_answered_exactly_once_in_order".to_string()));
                     }
                 }
-            } else if e.reason == "completed" {
+            } else if e.reason == "completed" && !must.is_empty() {
                 let ids: Vec<&String> = must.iter().map(|x| &x.1).collect();
                 bad.push((format!("the run ended `completed` after request {k} although the session stream shows the provider's calls {ids:?} in its answer: never executed, never answered"), "call_in_frames_not_answered".to_string()));
             }
